@@ -309,11 +309,18 @@ macro_rules! impl_derivatives {
 
             #[inline]
             fn sph_j0(&self) -> Self {
-                if self.re().abs() < F::epsilon() {
-                    // 1 - x^2/6 + x^4/120: correct derivatives through fourth order at zero
+                if self.re().abs() < F::from(0.3).unwrap() {
+                    // ascending series in z = x^2 (eight terms: exact to rounding below 0.3, also in the
+                    // derivatives); the closed form cancels catastrophically for small arguments
                     let z = self * self;
-                    Self::one() - z.clone() / F::from(6.0).unwrap()
-                        + z.clone() * z / F::from(120.0).unwrap()
+                    let c = |d: f64| F::from(1.0 / d).unwrap();
+                    let s = -z.clone() * c(1307674368000.0) + c(6227020800.0);
+                    let s = s * &z - c(39916800.0);
+                    let s = s * &z + c(362880.0);
+                    let s = s * &z - c(5040.0);
+                    let s = s * &z + c(120.0);
+                    let s = s * &z - c(6.0);
+                    s * z + F::one()
                 } else {
                     self.sin() / self
                 }
@@ -321,10 +328,18 @@ macro_rules! impl_derivatives {
 
             #[inline]
             fn sph_j1(&self) -> Self {
-                if self.re().abs() < F::epsilon() {
-                    // x/3 - x^3/30
-                    self.clone() / F::from(3.0).unwrap()
-                        - self * self * self.clone() / F::from(30.0).unwrap()
+                if self.re().abs() < F::from(0.3).unwrap() {
+                    // ascending series in z = x^2 (eight terms: exact to rounding below 0.3, also in the
+                    // derivatives); the closed form cancels catastrophically for small arguments
+                    let z = self * self;
+                    let c = |d: f64| F::from(1.0 / d).unwrap();
+                    let s = -z.clone() * c(22230464256000.0) + c(93405312000.0);
+                    let s = s * &z - c(518918400.0);
+                    let s = s * &z + c(3991680.0);
+                    let s = s * &z - c(45360.0);
+                    let s = s * &z + c(840.0);
+                    let s = s * &z - c(30.0);
+                    (s * z + c(3.0)) * self
                 } else {
                     let (s, c) = self.sin_cos();
                     (s - self * c) / (self * self)
@@ -333,10 +348,18 @@ macro_rules! impl_derivatives {
 
             #[inline]
             fn sph_j2(&self) -> Self {
-                if self.re().abs() < F::epsilon() {
-                    // x^2/15 - x^4/210
+                if self.re().abs() < F::from(0.3).unwrap() {
+                    // ascending series in z = x^2 (eight terms: exact to rounding below 0.3, also in the
+                    // derivatives); the closed form cancels catastrophically for small arguments
                     let z = self * self;
-                    z.clone() / F::from(15.0).unwrap() - z.clone() * z / F::from(210.0).unwrap()
+                    let c = |d: f64| F::from(1.0 / d).unwrap();
+                    let s = -z.clone() * c(422378820864000.0) + c(1587890304000.0);
+                    let s = s * &z - c(7783776000.0);
+                    let s = s * &z + c(51891840.0);
+                    let s = s * &z - c(498960.0);
+                    let s = s * &z + c(7560.0);
+                    let s = s * &z - c(210.0);
+                    (s * &z + c(15.0)) * z
                 } else {
                     let (s, c) = self.sin_cos();
                     let s2 = self * self;
